@@ -453,3 +453,107 @@ Corollary fungible_same_bytes a b v :
   fungible a b = true -> k3free a = true -> k3free b = true ->
   has_type a v = true -> has_type b v = true -> spec_enc a v = spec_enc b v.
 Proof. intros Hf Ka Kb Ha Hb. exact (proj1 (fungible_wire a b v Hf Ka Kb Ha Hb)). Qed.
+
+(* ====================== IsFungible<A,B> = IsFungible<B,A> =============================== *)
+Lemma ty_eqb_sym a b : ty_eqb a b = ty_eqb b a.
+Proof.
+  destruct (ty_eqb a b) eqn:E1, (ty_eqb b a) eqn:E2; try reflexivity.
+  - apply ty_eqb_eq in E1. subst. rewrite ty_eqb_refl in E2. discriminate.
+  - apply ty_eqb_eq in E2. subst. rewrite ty_eqb_refl in E1. discriminate.
+Qed.
+
+Lemma fungible_strip_l : forall a b, fungible a b = fungible (strip a) b.
+Proof.
+  induction a; intros b; cbn [strip]; try reflexivity.
+  destruct (id =? 0) eqn:E; [reflexivity|]. cbn [fungible]. rewrite E. apply IHa.
+Qed.
+
+Lemma seq_rule_sym c d : seq_rule c d = seq_rule d c.
+Proof. destruct c, d; cbn; try reflexivity; apply N.eqb_sym. Qed.
+Lemma ikind_eqb_sym a b : ikind_eqb a b = ikind_eqb b a.
+Proof. destruct a, b; reflexivity. Qed.
+Lemma scalar_eqb_sym a b : scalar_eqb a b = scalar_eqb b a.
+Proof. destruct a, b; cbn; try reflexivity. apply ikind_eqb_sym. Qed.
+Lemma bool_eqb_sym a b : Bool.eqb a b = Bool.eqb b a.
+Proof. destruct a, b; reflexivity. Qed.
+
+(* what [strip] returns is never a NOP_VALUE wrapper (only reference_wrapper, id 0, stops it) *)
+Lemma strip_not_wrap : forall u id t, strip u = TWrap id t -> (id =? 0) = true.
+Proof.
+  induction u; intros i t H; cbn [strip] in H; try discriminate.
+  destruct (id =? 0) eqn:E; [|exact (IHu i t H)]. injection H as <- _. exact E.
+Qed.
+
+Definition fsym (a : ty) : Prop := forall b, fungible a b = fungible b a.
+
+Lemma forallb_ext_in {A} (f g : A -> bool) l : (forall x, In x l -> f x = g x) -> forallb f l = forallb g l.
+Proof. induction l as [|x l IH]; intros H; [reflexivity|]. cbn. rewrite (H x (or_introl eq_refl)), IH; [reflexivity|]. intros y Hy. apply H. right. exact Hy. Qed.
+
+Lemma members_sym ts : Forall fsym ts -> forall ts',
+  (fix go (ts ts' : list ty) {struct ts} : bool :=
+     match ts, ts' with [], [] => true | x :: r, y :: r' => fungible x y && go r r' | _, _ => false end) ts ts' =
+  (fix go (ts ts' : list ty) {struct ts} : bool :=
+     match ts, ts' with [], [] => true | x :: r, y :: r' => fungible x y && go r r' | _, _ => false end) ts' ts.
+Proof.
+  intros H. induction H as [|t ts Ht _ IH]; intros [|t' ts']; try reflexivity.
+  rewrite (Ht t'), (IH ts'). reflexivity.
+Qed.
+
+Lemma entries_sym es : Forall (fun e => fsym (snd e)) es -> forall es',
+  (fix go (es es' : list (N * bool * ty)) {struct es} : bool :=
+     match es, es' with
+     | [], [] => true
+     | (i, a1, x) :: r, (j, a2, y) :: r' => (i =? j) && Bool.eqb a1 a2 && fungible x y && go r r'
+     | _, _ => false
+     end) es es' =
+  (fix go (es es' : list (N * bool * ty)) {struct es} : bool :=
+     match es, es' with
+     | [], [] => true
+     | (i, a1, x) :: r, (j, a2, y) :: r' => (i =? j) && Bool.eqb a1 a2 && fungible x y && go r r'
+     | _, _ => false
+     end) es' es.
+Proof.
+  intros H. induction H as [|[[i a] t] es Ht _ IH]; intros [|[[j a'] t'] es']; try reflexivity.
+  cbn [snd] in Ht. rewrite (Ht t'), (IH es'), (N.eqb_sym i j), (bool_eqb_sym a a'). reflexivity.
+Qed.
+
+Ltac sym_prep b :=
+  rewrite (fungible_strip_r _ b), (fungible_strip_l b _);
+  let Hw := fresh "Hw" in pose proof (strip_not_wrap b) as Hw;
+  destruct (strip b) as [c' s'|cw'|cb tb|k' ts'|id' tb|u' kb vb|tb|e' ek' tb|ts'|p' tk' z'|h' es'];
+  try (specialize (Hw _ _ eq_refl)); cbn [fungible strip ty_eqb]; try rewrite Hw; try reflexivity;
+  try (match goal with |- false = match ?k with KPair => _ | _ => _ end => destruct k; reflexivity end).
+
+Theorem fungible_sym : forall a, fsym a.
+Proof.
+  induction a using ty_ind'; intros b.
+  - (* scalar *) sym_prep b. rewrite N.eqb_sym, scalar_eqb_sym. reflexivity.
+  - (* string *) sym_prep b. apply N.eqb_sym.
+  - (* sequence *)
+    sym_prep b.
+    + rewrite seq_rule_sym, (IHa tb). reflexivity.
+    + destruct k'; try reflexivity.
+      f_equal. apply forallb_ext_in. intros x _. apply IHa.
+  - (* tuple *)
+    sym_prep b; try (destruct k; reflexivity).
+    + destruct k; try reflexivity.
+      f_equal. apply forallb_ext_in. intros x Hx. rewrite Forall_forall in H. apply (H x Hx).
+    + rewrite (members_sym ts H ts'). destruct k, k'; reflexivity.
+  - (* wrapper *)
+    cbn [fungible]. destruct (id =? 0) eqn:E.
+    + (* reference_wrapper: identical types only *)
+      rewrite (fungible_strip_l b _).
+      pose proof (strip_not_wrap b) as Hw.
+      destruct (strip b) as [c' s'|cw'|cb tb|k' ts'|id' tb|u' kb vb|tb|e' ek' tb|ts'|p' tk' z'|h' es'] eqn:Eb;
+        try (specialize (Hw _ _ eq_refl)); cbn [fungible strip ty_eqb]; rewrite ?E, ?Hw; try reflexivity.
+      * destruct k'; reflexivity.
+      * rewrite N.eqb_sym, (ty_eqb_sym a tb). reflexivity.
+    + rewrite (IHa b). rewrite (fungible_strip_r b (TWrap id a)). cbn [strip]. rewrite E.
+      rewrite <- (fungible_strip_r b a). reflexivity.
+  - (* map *) sym_prep b. rewrite (IHa1 kb), (IHa2 vb). reflexivity.
+  - (* optional *) sym_prep b. apply IHa.
+  - (* result *) sym_prep b. rewrite (IHa tb), N.eqb_sym, ikind_eqb_sym. reflexivity.
+  - (* variant *) sym_prep b. apply (members_sym ts H ts').
+  - (* handle *) sym_prep b. rewrite N.eqb_sym, ikind_eqb_sym, Z.eqb_sym. reflexivity.
+  - (* table *) sym_prep b. rewrite N.eqb_sym, (entries_sym es H es'). reflexivity.
+Qed.
